@@ -110,3 +110,35 @@ func TestVerifC08_Subscriptions(t *testing.T) {
 		e4Check(tb, "C08", c, e4OracleC08, c08Nontrivial)
 	})
 }
+
+// TestVerifC08_Timeouts: the same convergence oracle when acknowledgements are silently dropped and a
+// ResponseTimeout makes the client give up on that connection (requests time out instead of failing with the link).
+func TestVerifC08_Timeouts(t *testing.T) {
+	vRun(t, "C08", vOpts{CurFile: true, ReplayReps: 10}, func(rt *rapid.T) e4Case {
+		o := e4OptsC08
+		o.MaxFaults = 2
+		c := e4GenCase(rt, o)
+		c.Cfg.RespTimeoutMs = rapid.SampledFrom([]int{5, 10, 20}).Draw(rt, "respTimeoutMs2")
+		c.Cfg.OnErrorSleepUs = 0
+		n := rapid.IntRange(1, 3).Draw(rt, "nDrops")
+		for i := 0; i < n; i++ {
+			c.Faults = append(c.Faults, e4Fault{Kind: "dropAck", Conn: rapid.IntRange(1, i+2).Draw(rt, "dconn"),
+				Type: rapid.SampledFrom([]int{rtSubAck, rtSubAck, rtUnsubAck, rtUnsubAck, rtPubAck, rtPubRec}).Draw(rt, "dack"), Nth: rapid.IntRange(1, 3).Draw(rt, "dnth")})
+		}
+		return c
+	}, func(tb rapid.TB, c e4Case) {
+		e4Check(tb, "C08", c, e4OracleC08, func(r *e4Result) (bool, []string) {
+			nt, labels := c08Nontrivial(r)
+			dropped := false
+			for _, e := range r.Log {
+				if e.Kind == "B-DROPPED" {
+					dropped = true
+				}
+			}
+			if dropped {
+				labels = append(labels, "c08:ack-dropped")
+			}
+			return nt || dropped, labels
+		})
+	})
+}
